@@ -112,10 +112,19 @@ def symbolShapes : List (List Kind) :=
 
 def countKind (k : Kind) (s : List Kind) : Nat := (s.filter (· == k)).length
 
-/-- what the byte bound needs of a shape: at most 22 probability bits, at most 26 direct bits, and the last bit is a
-    probability bit (the direct bits of a distance are always followed by the 4 align bits). -/
+/-- The range-shrink budget of `a` probability bits and `b` direct bits (the bits BEFORE the last one of a symbol):
+    each probability bit shrinks the range by less than a factor 67, each direct bit by 2^25 / (2^24 - 1); starting from
+    ≥ 8192·31 = 253952, 21 normalisations would push the range to 2^32 or more, and 20 of them leave it ≥ 2^24.
+    (22 probability bits + 26 direct bits, the worst case named in lzma_decoder.c, passes with a = 21, b = 26; the
+    23-bit all-probability path of dist_slot 12/13 passes with a = 22, b = 0.) -/
+def budgetOk (a b : Nat) : Bool :=
+  decide (4294967296 * (67 ^ a * 33554432 ^ b) < 253952 * 256 ^ 21 * 16777215 ^ b)
+  && decide (16777216 * (67 ^ a * 33554432 ^ b) < 253952 * 256 ^ 20 * 16777215 ^ b)
+
+/-- what the byte bound needs of a shape: the last bit is a probability bit (the direct bits of a distance are always
+    followed by the 4 align bits) and the bits before it are within the budget. -/
 def shapeOk (s : List Kind) : Bool :=
-  decide (countKind P s ≤ 22) && decide (countKind D s ≤ 26) && (s.getLast? == some P)
+  (s.getLast? == some P) && budgetOk (countKind P s - 1) (countKind D s)
 
 /-- The shape of a list of decoded bits. -/
 def shapeOf (ops : List Op) : List Kind := ops.map (·.kind)
